@@ -237,19 +237,38 @@ def yaml_scalar(e) -> str:
     return json.dumps(e, ensure_ascii=False)     # a double-quoted YAML string
 
 
-def yaml_node(x, ind: int, intkeys: bool = False) -> str:
+def yaml_node(x, ind: int) -> str:
     pad = "  " * ind
     if isinstance(x, dict):
         if not x:
             return " {}\n"
         s = "\n"
         for k, v in x.items():
-            key = str(k) if intkeys and str(k).isdigit() and len(str(k)) == 4 else json.dumps(str(k), ensure_ascii=False)
-            s += f"{pad}{key}:" + yaml_node(v, ind + 1, intkeys)      # an unquoted year is an integer key
+            key = str(k) if isinstance(k, int) else json.dumps(str(k), ensure_ascii=False)      # an unquoted year is an integer key
+            s += f"{pad}{key}:" + yaml_node(v, ind + 1)
         return s
     if isinstance(x, list):
         return " [" + ", ".join(yaml_scalar(e) for e in x) + "]\n"
     return " " + yaml_scalar(x) + "\n"
+
+
+def int_year_keys(output):
+    """the output section with its year PERIOD keys as integers (what YAML makes of an unquoted 2018);
+    instance ids and variable names are left alone"""
+    def periods_of(v):
+        if isinstance(v, dict):
+            return {(int(k) if str(k).isdigit() and len(str(k)) == 4 else k): periods_of(w) for k, w in v.items()}
+        return v
+    out = {}
+    for key, v in output.items():
+        if A.vtype(key, "ext") or not isinstance(v, dict):
+            out[key] = periods_of(v)
+        elif key in A.PLURAL:
+            out[key] = {var: periods_of(w) for var, w in v.items()}
+        else:
+            out[key] = {iid: ({var: periods_of(w) for var, w in vals.items()} if isinstance(vals, dict) else vals)
+                        for iid, vals in v.items()}
+    return out
 
 
 def yaml_of_tests(tests, single=False) -> str:
@@ -266,7 +285,10 @@ def yaml_of_tests(tests, single=False) -> str:
                 s += f"  {key}:" + yaml_node(v, 2)
         s += "  input:" + yaml_node((t.get("extra") or {}).get("yaml_input", t["input"]), 2)
         if "output" in t:
-            s += "  output:" + yaml_node(t["output"], 2, intkeys=bool((t.get("extra") or {}).get("keywords")))
+            out = t["output"]
+            if (t.get("extra") or {}).get("keywords"):
+                out = int_year_keys(out)
+            s += "  output:" + yaml_node(out, 2)
     if single and len(tests) == 1:         # a file holding one test as a mapping, not a list
         s = "".join(l[2:] + "\n" for l in s.splitlines())
     return s
@@ -931,7 +953,7 @@ def fill_entity(rng: random.Random, table: dict, entity: str, nvars: int, null_r
             chosen = list(dict.fromkeys(rng.choice(pers) for _ in range(rng.choice([1, 1, 2]))))
             canon = {}
             for per in chosen:
-                key = per.split(":")[-1].upper()
+                key = "ETERNITY" if dp == "eternity" else per.split(":")[-1].upper()      # an eternal variable has one slot
                 as_input = is_input and rng.random() > null_rate
                 if key in canon and (as_input or canon[key]):
                     continue
